@@ -1,10 +1,61 @@
 //! Synthetic instructed TrueType fonts for the FreeType differential (C03, stage `synthetic`): the frozen corpus
 //! exercises only the instructions / composite features its fonts happen to use; generated fonts with *valid* glyph
-//! programs (every operand in range, balanced stack) and composites (offsets, point anchors, nesting, scales) reach
-//! the rest of the interpreter and the composite loader.
+//! programs (every operand in range for the zone it is read through, balanced stack, forward jumps only, bounded
+//! arithmetic) and composites (offsets, point anchors, nesting, scales, component instructions) reach the rest of the
+//! interpreter and the composite loader.
+//!
+//! Domain rules enforced by the encoder (both engines define the result; FreeType's result must not depend on the order
+//! in which glyphs were loaded before):
+//! * the encoder tracks zp0/zp1/zp2 and rp0/rp1/rp2 and emits SZPn / SRPn fix-ups so that every point operand and every
+//!   reference point is in range for the zone it is read through; IF / jump bodies restore the tracked state at their end;
+//! * FreeType keeps glyph-program writes to the twilight zone for the following glyphs of the same size object (skrifa
+//!   restarts every glyph from the state the control value program left): twilight points `< own_from` are written by
+//!   the control value program only, the others are fully re-initialised (position, original position, both touch flags)
+//!   by a prologue of every glyph program that uses the twilight zone;
+//! * FreeType 2.12.1's WCVTF writes the size's CVT directly unless an earlier WCVTP/DELTAC of the same glyph program
+//!   made the per-glyph copy: in glyph programs WCVTF is preceded by an identity WCVTP when no copy exists yet;
+//! * FreeType's interpreter stack is 64 bits wide on LP64, skrifa's 32: arithmetic is clamped (MIN/MAX) so that no
+//!   intermediate leaves the 32-bit range; divisors are non-zero constants.
 use proptest::prelude::*;
 use serde::{Deserialize, Serialize};
+use std::collections::BTreeMap;
 use vcore::fontkit;
+
+/// a value computed on the interpreter stack
+#[derive(Clone, Debug, Serialize, Deserialize, PartialEq)]
+pub enum Expr {
+    Const(i16),
+    Mppem,
+    Mps,
+    /// GC[orig] of a point read through zp2
+    Gc { orig: bool, p: u8 },
+    /// MD[orig]: p0 read through zp0, p1 through zp1
+    Md { orig: bool, p0: u8, p1: u8 },
+    Rs(u8),
+    Rcvt(u8),
+    GetInfo(u16),
+    /// GPV / GFV component
+    VecComp { fv: bool, y: bool },
+    Depth,
+    /// 0 ABS 1 NEG 2 FLOOR 3 CEILING 4..=7 ROUND[0..3] 8..=11 NROUND[0..3] 12 NOT 13 ODD 14 EVEN
+    Un(u8, Box<Expr>),
+    /// 0 ADD 1 SUB 2 MUL 3 MAX 4 MIN 5 LT 6 LTEQ 7 GT 8 GTEQ 9 EQ 10 NEQ 11 AND 12 OR
+    Bin(u8, Box<Expr>, Box<Expr>),
+    /// DIV by a non-zero constant
+    DivC(Box<Expr>, i16),
+    /// stack manipulation: 0 ROLL POP SWAP POP (= c)  1 3 CINDEX ADD SWAP POP SWAP POP (= c+a)  2 2 MINDEX SUB SWAP POP (= c-b)
+    /// 3 a DUP b MAX ADD  4 DEPTH a ADD
+    Shuf(u8, Box<Expr>, Box<Expr>, Box<Expr>),
+    /// call of an arithmetic function of the font program
+    Call(u8, Box<Expr>),
+}
+
+#[derive(Clone, Debug, Serialize, Deserialize, PartialEq, Default)]
+pub struct CallArg {
+    pub a: u8,
+    pub b: u8,
+    pub v: i16,
+}
 
 #[derive(Clone, Debug, Serialize, Deserialize, PartialEq)]
 pub enum GOp {
@@ -32,6 +83,63 @@ pub enum GOp {
     /// IF (MPPEM < k) body EIF
     IfPpemLt { k: u8, body: Vec<GOp> },
     Iup(bool),
+    // ---- second generation -------------------------------------------------------------------------------------
+    /// which: 0 SZP0 1 SZP1 2 SZP2 3 SZPS; glyph: true = zone 1
+    Szp { which: u8, glyph: bool },
+    Shc { a: bool, c: u8 },
+    Shz { a: bool, e: bool },
+    AlignPts { p1: u8, p2: u8 },
+    Utp { p: u8 },
+    /// kind: 0 SPVTL 1 SFVTL 2 SDPVTL; p1 read through zp1, p2 through zp2
+    VecLine { kind: u8, perp: bool, p1: u8, p2: u8 },
+    Sfvtpv,
+    /// SPVFS / SFVFS
+    VecFs { fv: bool, x: i16, y: i16 },
+    /// SPVTCA / SFVTCA
+    Vtca { fv: bool, x: bool },
+    /// SLOOP n + kind: 0 IP 1 ALIGNRP 2 SHP[0] 3 SHP[1] 4 SHPIX(amt) 5 FLIPPT
+    Loop { kind: u8, pts: Vec<u8>, amt: i8 },
+    FlipRg { on: bool, lo: u8, hi: u8 },
+    ShpixE { p: u8, e: Expr },
+    MsirpE { a: bool, p: u8, e: Expr },
+    WcvtpE { c: u8, e: Expr },
+    Scfs { p: u8, e: Expr },
+    Ws { s: u8, e: Expr },
+    Wcvtf { c: u8, v: i16 },
+    If { cond: Expr, then: Vec<GOp>, els: Vec<GOp> },
+    /// kind: 0 JMPR 1 JROT 2 JROF over `skip` (forward)
+    Jmp { kind: u8, cond: Expr, skip: Vec<GOp> },
+    /// CALL (first argument set) or LOOPCALL (one iteration per argument set) of font-program function f
+    Call { f: u8, looped: bool, args: Vec<CallArg> },
+    ScanCtrl(u16),
+    ScanType(u16),
+    /// INSTCTRL: selector 1..=3 (control value program; selector 3 also in glyph programs)
+    InstCtrl { sel: u8, on: bool },
+    Sdb(u8),
+    Sds(u8),
+    /// which: 0..=2 DELTAP1..3; items (arg, point)
+    DeltaPn { which: u8, items: Vec<(u8, u8)> },
+    /// which: 0..=2 DELTAC1..3; items (arg, cvt)
+    DeltaCn { which: u8, items: Vec<(u8, u8)> },
+    Sangw(u16),
+    Aa(u8),
+    /// pushes + DUP/SWAP/ROLL/CINDEX/MINDEX/POP (kind 0) or CLEAR (kind 1), net stack effect zero
+    StackJunk { kind: u8, vals: Vec<i16> },
+}
+
+/// a function of the font program
+#[derive(Clone, Debug, Serialize, Deserialize, PartialEq)]
+pub enum FDef {
+    /// body = the opcode of this op only; its operands come from the caller's stack (`GOp::Call` args)
+    Tpl(GOp),
+    /// unary pipeline on the top of the stack: (kind, constant)
+    /// 0 ABS 1 NEG 2 FLOOR 3 CEILING 4 ROUND[0] 5 NROUND[1] 6 +c 7 -c 8 MAX c 9 MIN c 10 DUP ADD 11 MUL c 12 DIV c
+    /// 13 DUP 0 LT IF NEG EIF   14 DUP c GT IF c ADD ELSE c SUB EIF
+    Arith(Vec<(u8, i16)>),
+    /// graphics-state setters with inline operands
+    State(Vec<GOp>),
+    /// calls a lower-numbered function
+    Chain(u8),
 }
 
 #[derive(Clone, Debug, Serialize, Deserialize, PartialEq)]
@@ -59,6 +167,14 @@ pub struct Component {
     pub offset_mode: u8,
 }
 
+/// instructions of a composite glyph (WE_HAVE_INSTRUCTIONS), run over the assembled points
+#[derive(Clone, Debug, Serialize, Deserialize, PartialEq, Default)]
+pub struct CompProg {
+    pub ops: Vec<GOp>,
+    /// flag on every component (else on the last one only)
+    pub flag_on_all: bool,
+}
+
 #[derive(Clone, Debug, Serialize, Deserialize, PartialEq)]
 pub struct SynthFont {
     pub upem: u16,
@@ -66,129 +182,1307 @@ pub struct SynthFont {
     pub simple: Vec<SimpleGlyph>,
     pub composites: Vec<Vec<Component>>,
     pub prep: Vec<GOp>,
+    /// maxp.maxTwilightPoints (0: first-generation font, twilight zone never used, default maxp)
+    #[serde(default)]
+    pub twilight: u8,
+    /// twilight points below (this % (twilight + 1)) are written by the control value program only
+    #[serde(default)]
+    pub tw_prep_owned: u8,
+    #[serde(default)]
+    pub fdefs: Vec<FDef>,
+    /// parallel to `composites`
+    #[serde(default)]
+    pub comp_programs: Vec<CompProg>,
 }
 
 fn push(out: &mut Vec<u8>, vals: &[i32]) {
-    if vals.iter().all(|v| (0..=255).contains(v)) {
-        out.push(0xB0 + vals.len() as u8 - 1);
-        out.extend(vals.iter().map(|v| *v as u8));
-    } else {
-        out.push(0xB8 + vals.len() as u8 - 1);
-        for v in vals {
-            out.extend_from_slice(&(*v as i16).to_be_bytes());
+    if vals.is_empty() {
+        return;
+    }
+    let bytes = vals.iter().all(|v| (0..=255).contains(v));
+    for chunk in vals.chunks(255) {
+        if bytes {
+            if chunk.len() <= 8 {
+                out.push(0xB0 + chunk.len() as u8 - 1);
+            } else {
+                out.push(0x40);
+                out.push(chunk.len() as u8);
+            }
+            out.extend(chunk.iter().map(|v| *v as u8));
+        } else {
+            if chunk.len() <= 8 {
+                out.push(0xB8 + chunk.len() as u8 - 1);
+            } else {
+                out.push(0x41);
+                out.push(chunk.len() as u8);
+            }
+            for v in chunk {
+                out.extend_from_slice(&(*v as i16).to_be_bytes());
+            }
         }
     }
 }
 
-/// encode a program; `npoints` = points of the glyph incl. the 4 phantom points (0 for prep: point ops skipped)
-pub fn encode_program(ops: &[GOp], npoints: usize, ncvt: usize, out: &mut Vec<u8>) {
-    let pt = |p: u8| -> i32 { if npoints == 0 { 0 } else { (p as usize % npoints) as i32 } };
-    let cv = |c: u8| -> i32 { if ncvt == 0 { 0 } else { (c as usize % ncvt) as i32 } };
-    for op in ops {
-        let point_op = !matches!(op, GOp::Svtca(_) | GOp::Round(..) | GOp::Wcvtp { .. } | GOp::Smd(_) | GOp::Scvtci(_) | GOp::Ssw(_) | GOp::Sswci(_) | GOp::Flip(_) | GOp::IfPpemLt { .. });
-        if point_op && npoints == 0 {
-            continue;
+pub type Classes = BTreeMap<(&'static str, u8), u32>;
+
+#[derive(Clone, Copy, Debug)]
+struct St {
+    zp: [usize; 3],
+    rp: [usize; 3],
+    cvt_copied: bool,
+}
+
+const CLAMP: i64 = 16384;
+
+/// zone-aware program encoder (see the module documentation for the rules)
+pub struct Enc<'a> {
+    pub out: Vec<u8>,
+    /// points of zone 0 (twilight) and zone 1 (glyph, incl. the two horizontal phantom points)
+    n: [usize; 2],
+    own_from: usize,
+    ncontours: usize,
+    ncvt: usize,
+    nstore: usize,
+    fdefs: &'a [FDef],
+    is_prep: bool,
+    st: St,
+    nest: u32,
+    /// unscaled coordinates of a simple glyph's own points (empty elsewhere)
+    pub coords: Vec<(i32, i32)>,
+    pub classes: Classes,
+}
+
+fn is_state_op(op: &GOp) -> bool {
+    matches!(
+        op,
+        GOp::Svtca(_) | GOp::Round(..) | GOp::Smd(_) | GOp::Scvtci(_) | GOp::Ssw(_) | GOp::Sswci(_) | GOp::Flip(_) | GOp::Sdb(_) | GOp::Sds(_) | GOp::ScanCtrl(_) | GOp::ScanType(_) | GOp::Vtca { .. } | GOp::VecFs { .. } | GOp::Sfvtpv | GOp::Sangw(_) | GOp::Aa(_)
+    )
+}
+
+fn is_template_op(op: &GOp) -> bool {
+    matches!(
+        op,
+        GOp::Mdap { .. } | GOp::Miap { .. } | GOp::Mdrp { .. } | GOp::Mirp { .. } | GOp::Msirp { .. } | GOp::Ip { .. } | GOp::AlignRp { .. } | GOp::Shp { .. } | GOp::Shpix { .. } | GOp::Wcvtp { .. } | GOp::Utp { .. } | GOp::AlignPts { .. } | GOp::Deltap { .. }
+    )
+}
+
+fn instantiate(t: &GOp, a: &CallArg) -> GOp {
+    match t {
+        GOp::Mdap { r, .. } => GOp::Mdap { r: *r, p: a.a },
+        GOp::Miap { r, .. } => GOp::Miap { r: *r, p: a.a, c: a.b },
+        GOp::Mdrp { fl, .. } => GOp::Mdrp { fl: *fl, p: a.a },
+        GOp::Mirp { fl, .. } => GOp::Mirp { fl: *fl, p: a.a, c: a.b },
+        GOp::Msirp { a: f, .. } => GOp::Msirp { a: *f, p: a.a, d: a.v.clamp(-300, 300) },
+        GOp::Ip { .. } => GOp::Ip { p: a.a },
+        GOp::AlignRp { .. } => GOp::AlignRp { p: a.a },
+        GOp::Shp { a: f, .. } => GOp::Shp { a: *f, p: a.a },
+        GOp::Shpix { .. } => GOp::Shpix { p: a.a, amt: a.v.clamp(-64, 64) as i8 },
+        GOp::Wcvtp { .. } => GOp::Wcvtp { c: a.a, v: a.v },
+        GOp::Utp { .. } => GOp::Utp { p: a.a },
+        GOp::AlignPts { .. } => GOp::AlignPts { p1: a.a, p2: a.b },
+        GOp::Deltap { .. } => GOp::Deltap { arg: a.b, p: a.a },
+        other => other.clone(),
+    }
+}
+
+fn arith_bound(steps: &[(u8, i16)], mut b: i64) -> i64 {
+    for (k, c) in steps.iter().take(4) {
+        let c = (*c as i64).abs().min(2000);
+        b = match k % 15 {
+            4 | 5 => b + 1024,
+            6 | 7 | 14 => b + c,
+            8 | 9 => b.max(c),
+            10 | 11 | 12 => b * 2 + 1,
+            _ => b,
+        };
+    }
+    b
+}
+
+fn encode_arith(steps: &[(u8, i16)], out: &mut Vec<u8>) {
+    for (k, c) in steps.iter().take(4) {
+        let c = (*c as i32).clamp(-2000, 2000);
+        let cc = 32 + (c.abs() % 97);
+        match k % 15 {
+            0 => out.push(0x64),
+            1 => out.push(0x65),
+            2 => out.push(0x66),
+            3 => out.push(0x67),
+            4 => out.push(0x68),
+            5 => out.push(0x6D),
+            6 => {
+                push(out, &[c]);
+                out.push(0x60)
+            }
+            7 => {
+                push(out, &[c]);
+                out.push(0x61)
+            }
+            8 => {
+                push(out, &[c]);
+                out.push(0x8B)
+            }
+            9 => {
+                push(out, &[c]);
+                out.push(0x8C)
+            }
+            10 => out.extend_from_slice(&[0x20, 0x60]),
+            11 => {
+                push(out, &[cc]);
+                out.push(0x63)
+            }
+            12 => {
+                push(out, &[cc]);
+                out.push(0x62)
+            }
+            13 => {
+                out.push(0x20);
+                push(out, &[0]);
+                out.extend_from_slice(&[0x50, 0x58, 0x65, 0x59]);
+            }
+            _ => {
+                out.push(0x20);
+                push(out, &[c]);
+                out.extend_from_slice(&[0x52, 0x58]);
+                push(out, &[c]);
+                out.push(0x60);
+                out.push(0x1B);
+                push(out, &[c]);
+                out.push(0x61);
+                out.push(0x59);
+            }
         }
-        if ncvt == 0 && matches!(op, GOp::Miap { .. } | GOp::Mirp { .. } | GOp::Wcvtp { .. }) {
-            continue;
+    }
+}
+
+/// the font program: one FDEF per entry
+pub fn encode_fpgm(fdefs: &[FDef], ncvt: usize) -> Vec<u8> {
+    let mut out = vec![];
+    for (i, f) in fdefs.iter().enumerate() {
+        push(&mut out, &[i as i32]);
+        out.push(0x2C);
+        match f {
+            FDef::Tpl(op) if is_template_op(op) => {
+                // operands come from the caller; DELTAP1's count is part of the body
+                match op {
+                    GOp::Mdap { r, .. } => out.push(0x2E + *r as u8),
+                    GOp::Miap { r, .. } => out.push(0x3E + *r as u8),
+                    GOp::Mdrp { fl, .. } => out.push(0xC0 + (fl & 0x1F)),
+                    GOp::Mirp { fl, .. } => out.push(0xE0 + (fl & 0x1F)),
+                    GOp::Msirp { a, .. } => out.push(0x3A + *a as u8),
+                    GOp::Ip { .. } => out.push(0x39),
+                    GOp::AlignRp { .. } => out.push(0x3C),
+                    GOp::Shp { a, .. } => out.push(0x32 + *a as u8),
+                    GOp::Shpix { .. } => out.push(0x38),
+                    GOp::Wcvtp { .. } => out.push(0x44),
+                    GOp::Utp { .. } => out.push(0x29),
+                    GOp::AlignPts { .. } => out.push(0x27),
+                    _ => {
+                        push(&mut out, &[1]);
+                        out.push(0x5D)
+                    }
+                }
+            }
+            FDef::Tpl(op) => {
+                if is_state_op(op) {
+                    let mut e = Enc::new(&[], [0, 0], 0, 0, ncvt, true);
+                    e.op(op);
+                    out.extend_from_slice(&e.out);
+                }
+            }
+            FDef::Arith(steps) => encode_arith(steps, &mut out),
+            FDef::State(ops) => {
+                let mut e = Enc::new(&[], [0, 0], 0, 0, ncvt, true);
+                for op in ops.iter().filter(|o| is_state_op(o)).take(4) {
+                    e.op(op);
+                }
+                out.extend_from_slice(&e.out);
+            }
+            FDef::Chain(t) => {
+                if i > 0 {
+                    push(&mut out, &[(*t as usize % i) as i32]);
+                    out.push(0x2B);
+                }
+            }
         }
-        match op {
-            GOp::Svtca(x) => out.push(*x as u8),
-            GOp::Round(k, arg) => match k % 8 {
-                0 => out.push(0x18),
-                1 => out.push(0x19),
-                2 => out.push(0x3D),
-                3 => out.push(0x7D),
-                4 => out.push(0x7C),
-                5 => out.push(0x7A),
-                6 => {
-                    push(out, &[*arg as i32]);
-                    out.push(0x76)
+        out.push(0x2D);
+    }
+    out
+}
+
+/// what a call of function `f` ends up executing
+fn resolve(fdefs: &[FDef], f: usize) -> Option<&FDef> {
+    let mut i = f;
+    loop {
+        match &fdefs[i] {
+            FDef::Chain(t) => {
+                if i == 0 {
+                    return None;
+                }
+                i = *t as usize % i;
+            }
+            other => return Some(other),
+        }
+    }
+}
+
+impl<'a> Enc<'a> {
+    pub fn new(fdefs: &'a [FDef], n: [usize; 2], own_from: usize, ncontours: usize, ncvt: usize, is_prep: bool) -> Self {
+        Enc { out: vec![], n, own_from, ncontours, ncvt, nstore: if n[0] > 0 { 8 } else { 64 }, fdefs, is_prep, st: St { zp: [1, 1, 1], rp: [0, 0, 0], cvt_copied: false }, nest: 0, coords: vec![], classes: Classes::new() }
+    }
+
+    fn hit(&mut self, name: &'static str) {
+        let code = (self.st.zp[0] | self.st.zp[1] << 1 | self.st.zp[2] << 2) as u8;
+        *self.classes.entry((name, code)).or_insert(0) += 1;
+    }
+    fn hit0(&mut self, name: &'static str) {
+        *self.classes.entry((name, 0xFF)).or_insert(0) += 1;
+    }
+
+    fn emit_szp(&mut self, i: usize, z: usize) {
+        push(&mut self.out, &[z as i32]);
+        self.out.push(0x13 + i as u8);
+        self.st.zp[i] = z;
+    }
+    fn emit_srp(&mut self, k: usize, p: usize) {
+        push(&mut self.out, &[p as i32]);
+        self.out.push(0x10 + k as u8);
+        self.st.rp[k] = p;
+    }
+    /// zone pointer i must address a non-empty zone
+    fn need_zone(&mut self, i: usize) -> bool {
+        if self.n[self.st.zp[i]] > 0 {
+            return true;
+        }
+        let other = 1 - self.st.zp[i];
+        if self.n[other] == 0 {
+            return false;
+        }
+        self.emit_szp(i, other);
+        true
+    }
+    /// reference point k, read through zone pointer i, must be in range
+    fn need_rp(&mut self, k: usize, i: usize, raw: u8) {
+        let n = self.n[self.st.zp[i]];
+        if self.st.rp[k] >= n {
+            self.emit_srp(k, raw as usize % n);
+        }
+    }
+    /// point operand read (or written) through zone pointer i
+    fn pt(&self, i: usize, raw: u8, write: bool) -> i32 {
+        let z = self.st.zp[i];
+        let n = self.n[z];
+        if z == 0 && write && !self.is_prep && self.own_from < n {
+            (self.own_from + raw as usize % (n - self.own_from)) as i32
+        } else {
+            (raw as usize % n) as i32
+        }
+    }
+    fn cv(&self, c: u8) -> i32 {
+        (c as usize % self.ncvt) as i32
+    }
+    /// whole-zone writes through zp2 (SHC, SHZ) are allowed on the twilight zone only where nothing the control value
+    /// program owns can be modified
+    fn zp2_whole_zone_ok(&mut self) -> bool {
+        if self.st.zp[2] == 0 && !(self.is_prep || self.own_from == 0) {
+            if self.n[1] == 0 {
+                return false;
+            }
+            self.emit_szp(2, 1);
+        }
+        true
+    }
+
+    fn clamp(&mut self, l: i64) {
+        push(&mut self.out, &[l as i32]);
+        self.out.push(0x8C);
+        push(&mut self.out, &[-(l as i32)]);
+        self.out.push(0x8B);
+        self.hit0("MIN");
+        self.hit0("MAX");
+    }
+
+    /// emits code leaving one value on the stack; returns a bound of its magnitude
+    fn ex(&mut self, e: &Expr, depth: u32) -> i64 {
+        if depth > 4 {
+            push(&mut self.out, &[0]);
+            return 0;
+        }
+        let d = depth + 1;
+        match e {
+            Expr::Const(v) => {
+                push(&mut self.out, &[*v as i32]);
+                (*v as i64).abs()
+            }
+            Expr::Mppem => {
+                self.out.push(0x4B);
+                self.hit0("MPPEM");
+                4096
+            }
+            Expr::Mps => {
+                self.out.push(0x4C);
+                self.hit0("MPS");
+                1 << 18
+            }
+            Expr::Gc { orig, p } => {
+                if !self.need_zone(2) {
+                    push(&mut self.out, &[0]);
+                    return 0;
+                }
+                let q = self.pt(2, *p, false);
+                push(&mut self.out, &[q]);
+                self.out.push(0x46 + *orig as u8);
+                self.hit(if *orig { "GC[orig]" } else { "GC[cur]" });
+                1 << 24
+            }
+            Expr::Md { orig, p0, p1 } => {
+                if !(self.need_zone(0) && self.need_zone(1)) {
+                    push(&mut self.out, &[0]);
+                    return 0;
+                }
+                let a = self.pt(0, *p0, false);
+                let b = self.pt(1, *p1, false);
+                push(&mut self.out, &[a, b]);
+                self.out.push(if *orig { 0x4A } else { 0x49 });
+                self.hit(if *orig { "MD[orig]" } else { "MD[cur]" });
+                1 << 24
+            }
+            Expr::Rs(s) => {
+                push(&mut self.out, &[(*s as usize % self.nstore) as i32]);
+                self.out.push(0x43);
+                self.hit0("RS");
+                1 << 15
+            }
+            Expr::Rcvt(c) => {
+                if self.ncvt == 0 {
+                    push(&mut self.out, &[0]);
+                    return 0;
+                }
+                let cvi = self.cv(*c);
+                    push(&mut self.out, &[cvi]);
+                self.out.push(0x45);
+                self.hit0("RCVT");
+                1 << 18
+            }
+            Expr::GetInfo(sel) => {
+                push(&mut self.out, &[(*sel & 0x3FFF) as i32]);
+                self.out.push(0x88);
+                self.hit0("GETINFO");
+                1 << 20
+            }
+            Expr::VecComp { fv, y } => {
+                self.out.push(0x0C + *fv as u8);
+                if *y {
+                    self.out.extend_from_slice(&[0x23, 0x21]);
+                } else {
+                    self.out.push(0x21);
+                }
+                self.hit0(if *fv { "GFV" } else { "GPV" });
+                16384
+            }
+            Expr::Depth => {
+                self.out.push(0x24);
+                self.hit0("DEPTH");
+                1024
+            }
+            Expr::Un(k, a) => {
+                let b = self.ex(a, d);
+                let k = k % 15;
+                let (opc, name): (u8, &'static str) = match k {
+                    0 => (0x64, "ABS"),
+                    1 => (0x65, "NEG"),
+                    2 => (0x66, "FLOOR"),
+                    3 => (0x67, "CEILING"),
+                    4..=7 => (0x68 + (k - 4), "ROUND"),
+                    8..=11 => (0x6C + (k - 8), "NROUND"),
+                    12 => (0x5C, "NOT"),
+                    13 => (0x56, "ODD"),
+                    _ => (0x57, "EVEN"),
+                };
+                self.out.push(opc);
+                self.hit0(name);
+                match k {
+                    12..=14 => 1,
+                    _ => b + 1024,
+                }
+            }
+            Expr::Bin(k, a, b) => {
+                let k = k % 13;
+                let mut ba = self.ex(a, d);
+                if k == 2 && ba > CLAMP {
+                    self.clamp(CLAMP);
+                    ba = CLAMP;
+                }
+                let mut bb = self.ex(b, d);
+                if k == 2 && bb > CLAMP {
+                    self.clamp(CLAMP);
+                    bb = CLAMP;
+                }
+                let (opc, name): (u8, &'static str) = match k {
+                    0 => (0x60, "ADD"),
+                    1 => (0x61, "SUB"),
+                    2 => (0x63, "MUL"),
+                    3 => (0x8B, "MAX"),
+                    4 => (0x8C, "MIN"),
+                    5 => (0x50, "LT"),
+                    6 => (0x51, "LTEQ"),
+                    7 => (0x52, "GT"),
+                    8 => (0x53, "GTEQ"),
+                    9 => (0x54, "EQ"),
+                    10 => (0x55, "NEQ"),
+                    11 => (0x5A, "AND"),
+                    _ => (0x5B, "OR"),
+                };
+                self.out.push(opc);
+                self.hit0(name);
+                let mut r = match k {
+                    0 | 1 => ba + bb,
+                    2 => ba * bb / 64 + 1,
+                    3 | 4 => ba.max(bb),
+                    _ => 1,
+                };
+                if r > 1 << 28 {
+                    self.clamp(CLAMP);
+                    r = CLAMP;
+                }
+                r
+            }
+            Expr::DivC(a, c) => {
+                let mut ba = self.ex(a, d);
+                if ba > CLAMP {
+                    self.clamp(CLAMP);
+                    ba = CLAMP;
+                }
+                let c = if *c == 0 { 64 } else { *c as i32 };
+                push(&mut self.out, &[c]);
+                self.out.push(0x62);
+                self.hit0("DIV");
+                ba * 64 / (c as i64).abs() + 1
+            }
+            Expr::Shuf(k, a, b, c) => match k % 5 {
+                0 => {
+                    self.ex(a, d);
+                    self.ex(b, d);
+                    let bc = self.ex(c, d);
+                    self.out.extend_from_slice(&[0x8A, 0x21, 0x23, 0x21]);
+                    self.hit0("ROLL");
+                    self.hit0("SWAP");
+                    self.hit0("POP");
+                    bc
+                }
+                1 => {
+                    let ba = self.ex(a, d);
+                    self.ex(b, d);
+                    let bc = self.ex(c, d);
+                    push(&mut self.out, &[3]);
+                    self.out.extend_from_slice(&[0x25, 0x60, 0x23, 0x21, 0x23, 0x21]);
+                    self.hit0("CINDEX");
+                    ba + bc
+                }
+                2 => {
+                    self.ex(a, d);
+                    let bb = self.ex(b, d);
+                    let bc = self.ex(c, d);
+                    push(&mut self.out, &[2]);
+                    self.out.extend_from_slice(&[0x26, 0x61, 0x23, 0x21]);
+                    self.hit0("MINDEX");
+                    bb + bc
+                }
+                3 => {
+                    let ba = self.ex(a, d);
+                    self.out.push(0x20);
+                    let bb = self.ex(b, d);
+                    self.out.extend_from_slice(&[0x8B, 0x60]);
+                    self.hit0("DUP");
+                    ba + ba.max(bb)
                 }
                 _ => {
-                    push(out, &[*arg as i32]);
-                    out.push(0x77)
+                    self.out.push(0x24);
+                    let ba = self.ex(a, d);
+                    self.out.push(0x60);
+                    self.hit0("DEPTH");
+                    ba + 1024
                 }
             },
+            Expr::Call(f, a) => {
+                let mut ba = self.ex(a, d);
+                if self.fdefs.is_empty() {
+                    return ba;
+                }
+                let fi = *f as usize % self.fdefs.len();
+                let fdefs = self.fdefs;
+                if let Some(FDef::Arith(steps)) = resolve(fdefs, fi) {
+                    if ba > CLAMP {
+                        self.clamp(CLAMP);
+                        ba = CLAMP;
+                    }
+                    push(&mut self.out, &[fi as i32]);
+                    self.out.push(0x2B);
+                    self.hit0("CALL(arith)");
+                    if matches!(fdefs[fi], FDef::Chain(_)) {
+                        self.hit0("CALL(chained)");
+                    }
+                    arith_bound(steps, ba)
+                } else {
+                    ba
+                }
+            }
+        }
+    }
+
+    fn expr(&mut self, e: &Expr, limit: Option<i64>) {
+        let b = self.ex(e, 0);
+        if let Some(l) = limit {
+            if b > l {
+                self.clamp(l);
+            }
+        }
+    }
+
+    /// ops whose operands can also come from a caller's stack: fix-ups, operands, opcode, tracked effects
+    fn simple_inner(&mut self, op: &GOp) -> Option<(Vec<i32>, u8, &'static str)> {
+        match op {
             GOp::Mdap { r, p } => {
-                push(out, &[pt(*p)]);
-                out.push(0x2E + *r as u8)
+                if !self.need_zone(0) {
+                    return None;
+                }
+                let q = self.pt(0, *p, true);
+                self.st.rp[0] = q as usize;
+                self.st.rp[1] = q as usize;
+                Some((vec![q], 0x2E + *r as u8, "MDAP"))
             }
             GOp::Miap { r, p, c } => {
-                push(out, &[pt(*p), cv(*c)]);
-                out.push(0x3E + *r as u8)
+                if self.ncvt == 0 || !self.need_zone(0) {
+                    return None;
+                }
+                let q = self.pt(0, *p, true);
+                self.st.rp[0] = q as usize;
+                self.st.rp[1] = q as usize;
+                Some((vec![q, self.cv(*c)], 0x3E + *r as u8, "MIAP"))
             }
             GOp::Mdrp { fl, p } => {
-                push(out, &[pt(*p)]);
-                out.push(0xC0 + (fl & 0x1F))
+                if !(self.need_zone(0) && self.need_zone(1)) {
+                    return None;
+                }
+                self.need_rp(0, 0, *p);
+                let q = self.pt(1, *p, true);
+                self.st.rp[1] = self.st.rp[0];
+                self.st.rp[2] = q as usize;
+                if fl & 16 != 0 {
+                    self.st.rp[0] = q as usize;
+                }
+                Some((vec![q], 0xC0 + (fl & 0x1F), "MDRP"))
             }
             GOp::Mirp { fl, p, c } => {
-                push(out, &[pt(*p), cv(*c)]);
-                out.push(0xE0 + (fl & 0x1F))
-            }
-            GOp::Srp { which, p } => {
-                push(out, &[pt(*p)]);
-                out.push(0x10 + which % 3)
-            }
-            GOp::Ip { p } => {
-                push(out, &[pt(*p)]);
-                out.push(0x39)
-            }
-            GOp::AlignRp { p } => {
-                push(out, &[pt(*p)]);
-                out.push(0x3C)
-            }
-            GOp::Shp { a, p } => {
-                push(out, &[pt(*p)]);
-                out.push(0x32 + *a as u8)
-            }
-            GOp::Shpix { p, amt } => {
-                push(out, &[pt(*p), *amt as i32]);
-                out.push(0x38)
+                if self.ncvt == 0 || !(self.need_zone(0) && self.need_zone(1)) {
+                    return None;
+                }
+                self.need_rp(0, 0, *p);
+                let q = self.pt(1, *p, true);
+                self.st.rp[1] = self.st.rp[0];
+                self.st.rp[2] = q as usize;
+                if fl & 16 != 0 {
+                    self.st.rp[0] = q as usize;
+                }
+                // CVT index -1 is defined (distance 0)
+                let c = if *c == 255 && self.n[0] > 0 { -1 } else { self.cv(*c) };
+                Some((vec![q, c], 0xE0 + (fl & 0x1F), "MIRP"))
             }
             GOp::Msirp { a, p, d } => {
-                push(out, &[pt(*p), (*d as i32).clamp(-2000, 2000)]);
-                out.push(0x3A + *a as u8)
+                if !(self.need_zone(0) && self.need_zone(1)) {
+                    return None;
+                }
+                self.need_rp(0, 0, *p);
+                let q = self.pt(1, *p, true);
+                self.st.rp[1] = self.st.rp[0];
+                self.st.rp[2] = q as usize;
+                if *a {
+                    self.st.rp[0] = q as usize;
+                }
+                Some((vec![q, (*d as i32).clamp(-2000, 2000)], 0x3A + *a as u8, "MSIRP"))
             }
-            GOp::Deltap { arg, p } => {
-                push(out, &[*arg as i32, pt(*p), 1]);
-                out.push(0x5D)
+            GOp::Ip { p } => {
+                if !(self.need_zone(0) && self.need_zone(1) && self.need_zone(2)) {
+                    return None;
+                }
+                self.need_rp(1, 0, *p);
+                self.need_rp(2, 1, *p);
+                Some((vec![self.pt(2, *p, true)], 0x39, "IP"))
+            }
+            GOp::AlignRp { p } => {
+                if !(self.need_zone(0) && self.need_zone(1)) {
+                    return None;
+                }
+                self.need_rp(0, 0, *p);
+                Some((vec![self.pt(1, *p, true)], 0x3C, "ALIGNRP"))
+            }
+            GOp::Shp { a, p } => {
+                let (k, i) = if *a { (1, 0) } else { (2, 1) };
+                if !(self.need_zone(i) && self.need_zone(2)) {
+                    return None;
+                }
+                self.need_rp(k, i, *p);
+                Some((vec![self.pt(2, *p, true)], 0x32 + *a as u8, if *a { "SHP[rp1]" } else { "SHP[rp2]" }))
+            }
+            GOp::Shpix { p, amt } => {
+                if !self.need_zone(2) {
+                    return None;
+                }
+                Some((vec![self.pt(2, *p, true), *amt as i32], 0x38, "SHPIX"))
             }
             GOp::Wcvtp { c, v } => {
-                push(out, &[cv(*c), (*v as i32).clamp(-4000, 4000)]);
-                out.push(0x44)
+                if self.ncvt == 0 {
+                    return None;
+                }
+                self.st.cvt_copied = true;
+                Some((vec![self.cv(*c), (*v as i32).clamp(-4000, 4000)], 0x44, "WCVTP"))
+            }
+            GOp::Utp { p } => {
+                if !self.need_zone(0) {
+                    return None;
+                }
+                Some((vec![self.pt(0, *p, true)], 0x29, "UTP"))
+            }
+            GOp::AlignPts { p1, p2 } => {
+                if !(self.need_zone(0) && self.need_zone(1)) {
+                    return None;
+                }
+                Some((vec![self.pt(1, *p1, true), self.pt(0, *p2, true)], 0x27, "ALIGNPTS"))
+            }
+            GOp::Deltap { arg, p } => {
+                if !self.need_zone(0) {
+                    return None;
+                }
+                Some((vec![*arg as i32, self.pt(0, *p, true), 1], 0x5D, "DELTAP1"))
+            }
+            _ => None,
+        }
+    }
+
+    fn simple(&mut self, op: &GOp, allow_fix: bool) -> Option<(Vec<i32>, u8)> {
+        let snap = (self.st, self.out.len());
+        match self.simple_inner(op) {
+            Some((v, opc, name)) if allow_fix || self.out.len() == snap.1 => {
+                // recorded with the zone pointers in effect when the instruction runs
+                self.hit(name);
+                Some((v, opc))
+            }
+            _ => {
+                self.st = snap.0;
+                self.out.truncate(snap.1);
+                None
+            }
+        }
+    }
+
+    fn restore(&mut self, saved: St) {
+        for i in 0..3 {
+            if self.st.zp[i] != saved.zp[i] {
+                self.emit_szp(i, saved.zp[i]);
+            }
+        }
+        for k in 0..3 {
+            if self.st.rp[k] != saved.rp[k] {
+                self.emit_srp(k, saved.rp[k]);
+            }
+        }
+        self.st.cvt_copied = saved.cvt_copied;
+    }
+
+    /// conditionally executed code: leaves the tracked state as it found it
+    fn body(&mut self, ops: &[GOp]) {
+        let saved = self.st;
+        self.nest += 1;
+        for op in ops.iter().take(6) {
+            if self.nest > 2 && matches!(op, GOp::If { .. } | GOp::Jmp { .. } | GOp::IfPpemLt { .. }) {
+                continue;
+            }
+            self.op(op);
+        }
+        self.nest -= 1;
+        self.restore(saved);
+    }
+
+    /// re-initialises every twilight point a glyph program may write (position = original position on a diagonal,
+    /// both touch flags set), so that nothing an earlier glyph left there can be observed
+    fn twilight_prologue(&mut self) {
+        if self.is_prep || self.n[0] == 0 || self.ncvt == 0 || self.own_from >= self.n[0] {
+            return;
+        }
+        let diag: [(i32, i32); 4] = [(0x2D41, 0x2D41), (0x2D41, -0x2D41), (0x3000, 0x1000), (0x1000, 0x3C00)];
+        let (x, y) = diag[(self.own_from + self.ncvt) % 4];
+        push(&mut self.out, &[x, y]);
+        self.out.push(0x0A); // SPVFS
+        self.out.push(0x0E); // SFVTPV
+        self.emit_szp(0, 0);
+        let mut vals = vec![];
+        for p in (self.own_from..self.n[0]).rev() {
+            vals.push(p as i32);
+            vals.push(((p * 7 + self.ncvt) % self.ncvt) as i32);
+        }
+        push(&mut self.out, &vals);
+        for _ in self.own_from..self.n[0] {
+            self.out.push(0x3E);
+        }
+        self.out.push(0x01); // SVTCA[x]: the default vectors
+        self.emit_szp(0, 1);
+        self.st.rp[0] = self.n[0] - 1;
+        self.st.rp[1] = self.n[0] - 1;
+        self.hit0("twilight-prologue");
+    }
+
+    /// FreeType runs the control value program a second time when the first glyph is loaded with a smooth hinting
+    /// target (tt_loader_init: "re-executing `prep' table"), then *without* clearing the twilight zone, the storage
+    /// area and the graphics state the first run left: the program must compute the same from either start. This
+    /// prologue puts everything the rest of the program can observe into the clean-start state.
+    fn prep_prologue(&mut self) {
+        let mut v = vec![];
+        for s in 0..self.nstore {
+            v.push(s as i32);
+            v.push(0);
+        }
+        push(&mut self.out, &v);
+        for _ in 0..self.nstore {
+            self.out.push(0x42); // WS
+        }
+        self.out.push(0x18); // RTG
+        for (val, opc) in [(64, 0x1A), (68, 0x1D), (0, 0x1E), (0, 0x1F), (9, 0x5E), (3, 0x5F), (0, 0x85)] {
+            push(&mut self.out, &[val]);
+            self.out.push(opc);
+        }
+        self.out.push(0x4D); // FLIPON
+        for sel in 1..=3 {
+            push(&mut self.out, &[0, sel]);
+            self.out.push(0x8E);
+        }
+        // every twilight point: position = original position = (0, 0), both touch flags set (MIAP with a CVT entry
+        // that is zero for the moment)
+        push(&mut self.out, &[0, 0]);
+        self.out.push(0x45); // RCVT: [0, old value]
+        push(&mut self.out, &[0, 0]);
+        self.out.push(0x44); // WCVTP
+        push(&mut self.out, &[0x2D41, 0x2D41]);
+        self.out.push(0x0A); // SPVFS
+        self.out.push(0x0E); // SFVTPV
+        self.emit_szp(0, 0);
+        let mut v = vec![];
+        for p in (0..self.n[0]).rev() {
+            v.push(p as i32);
+            v.push(0);
+        }
+        push(&mut self.out, &v);
+        for _ in 0..self.n[0] {
+            self.out.push(0x3E);
+        }
+        self.out.push(0x44); // WCVTP: the old value back
+        self.out.push(0x01); // SVTCA[x]
+        self.st.rp[0] = self.n[0] - 1;
+        self.st.rp[1] = self.n[0] - 1;
+        self.hit0("prep-prologue");
+    }
+
+    pub fn program(&mut self, ops: &[GOp]) {
+        fn uses_twilight(ops: &[GOp]) -> bool {
+            ops.iter().any(|o| match o {
+                GOp::Szp { glyph, .. } => !*glyph,
+                GOp::If { then, els, .. } => uses_twilight(then) || uses_twilight(els),
+                GOp::Jmp { skip, .. } => uses_twilight(skip),
+                GOp::IfPpemLt { body, .. } => uses_twilight(body),
+                _ => false,
+            })
+        }
+        if self.is_prep {
+            if self.n[0] > 0 && self.ncvt > 0 && !ops.is_empty() {
+                self.prep_prologue();
+            }
+        } else if uses_twilight(ops) {
+            self.twilight_prologue();
+        }
+        for op in ops {
+            self.op(op);
+        }
+    }
+
+    pub fn op(&mut self, op: &GOp) {
+        if is_template_op(op) {
+            if let Some((v, opc)) = self.simple(op, true) {
+                push(&mut self.out, &v);
+                self.out.push(opc);
+            }
+            return;
+        }
+        match op {
+            GOp::Svtca(x) => {
+                self.out.push(*x as u8);
+                self.hit0("SVTCA");
+            }
+            GOp::Round(k, arg) => {
+                match k % 8 {
+                    0 => self.out.push(0x18),
+                    1 => self.out.push(0x19),
+                    2 => self.out.push(0x3D),
+                    3 => self.out.push(0x7D),
+                    4 => self.out.push(0x7C),
+                    5 => self.out.push(0x7A),
+                    6 => {
+                        push(&mut self.out, &[*arg as i32]);
+                        self.out.push(0x76)
+                    }
+                    _ => {
+                        push(&mut self.out, &[*arg as i32]);
+                        self.out.push(0x77)
+                    }
+                }
+                self.hit0("round-state");
+            }
+            GOp::Srp { which, p } => {
+                let k = (*which % 3) as usize;
+                let n = self.n[self.st.zp[if k == 2 { 1 } else { 0 }]];
+                if n > 0 {
+                    self.emit_srp(k, *p as usize % n);
+                    self.hit0("SRP");
+                }
             }
             GOp::Smd(v) => {
-                push(out, &[*v as i32]);
-                out.push(0x1A)
+                push(&mut self.out, &[*v as i32]);
+                self.out.push(0x1A);
+                self.hit0("SMD");
             }
             GOp::Scvtci(v) => {
-                push(out, &[*v as i32]);
-                out.push(0x1D)
+                push(&mut self.out, &[*v as i32]);
+                self.out.push(0x1D);
+                self.hit0("SCVTCI");
             }
             GOp::Ssw(v) => {
-                push(out, &[*v as i32]);
-                out.push(0x1F)
+                push(&mut self.out, &[*v as i32]);
+                self.out.push(0x1F);
+                self.hit0("SSW");
             }
             GOp::Sswci(v) => {
-                push(out, &[*v as i32]);
-                out.push(0x1E)
+                push(&mut self.out, &[*v as i32]);
+                self.out.push(0x1E);
+                self.hit0("SSWCI");
             }
-            GOp::Flip(on) => out.push(if *on { 0x4D } else { 0x4E }),
+            GOp::Flip(on) => {
+                self.out.push(if *on { 0x4D } else { 0x4E });
+                self.hit0("FLIPON/OFF");
+            }
             GOp::Isect { p, a0, a1, b0, b1 } => {
-                push(out, &[pt(*p), pt(*a0), pt(*a1), pt(*b0), pt(*b1)]);
-                out.push(0x0F)
+                if self.need_zone(0) && self.need_zone(1) && self.need_zone(2) {
+                    let v = [self.pt(2, *p, true), self.pt(1, *a0, false), self.pt(1, *a1, false), self.pt(0, *b0, false), self.pt(0, *b1, false)];
+                    push(&mut self.out, &v);
+                    self.out.push(0x0F);
+                    self.hit("ISECT");
+                }
             }
             GOp::IfPpemLt { k, body } => {
-                out.push(0x4B); // MPPEM
-                push(out, &[*k as i32]);
-                out.push(0x50); // LT
-                out.push(0x58); // IF
+                self.out.push(0x4B); // MPPEM
+                push(&mut self.out, &[*k as i32]);
+                self.out.push(0x50); // LT
+                self.out.push(0x58); // IF
                 let flat: Vec<GOp> = body.iter().filter(|o| !matches!(o, GOp::IfPpemLt { .. })).cloned().collect();
-                encode_program(&flat, npoints, ncvt, out);
-                out.push(0x59); // EIF
+                self.body(&flat);
+                self.out.push(0x59); // EIF
+                self.hit0("IF");
             }
-            GOp::Iup(x) => out.push(0x30 + *x as u8),
+            GOp::Iup(x) => {
+                if self.n[1] > 0 {
+                    self.out.push(0x30 + *x as u8);
+                    self.hit0("IUP");
+                }
+            }
+            GOp::Szp { which, glyph } => {
+                let z = *glyph as usize;
+                if self.n[z] > 0 {
+                    push(&mut self.out, &[z as i32]);
+                    match which % 4 {
+                        3 => {
+                            self.out.push(0x16);
+                            self.st.zp = [z, z, z];
+                            self.hit0("SZPS");
+                        }
+                        i => {
+                            self.out.push(0x13 + i);
+                            self.st.zp[i as usize] = z;
+                            self.hit0("SZP0/1/2");
+                        }
+                    }
+                }
+            }
+            GOp::Shc { a, c } => {
+                let (k, i) = if *a { (1, 0) } else { (2, 1) };
+                if self.need_zone(i) && self.need_zone(2) && self.zp2_whole_zone_ok() {
+                    self.need_rp(k, i, *c);
+                    let contour = if self.st.zp[2] == 0 {
+                        0
+                    } else if self.ncontours == 0 {
+                        return;
+                    } else {
+                        (*c as usize % self.ncontours) as i32
+                    };
+                    push(&mut self.out, &[contour]);
+                    self.out.push(0x34 + *a as u8);
+                    self.hit(if *a { "SHC[rp1]" } else { "SHC[rp2]" });
+                }
+            }
+            GOp::Shz { a, e } => {
+                let (k, i) = if *a { (1, 0) } else { (2, 1) };
+                if self.need_zone(i) && self.need_zone(2) && self.zp2_whole_zone_ok() {
+                    self.need_rp(k, i, *e as u8);
+                    push(&mut self.out, &[*e as i32]);
+                    self.out.push(0x36 + *a as u8);
+                    self.hit(if *a { "SHZ[rp1]" } else { "SHZ[rp2]" });
+                }
+            }
+            GOp::VecLine { kind, perp, p1, p2 } => {
+                if self.need_zone(1) && self.need_zone(2) {
+                    let v = [self.pt(1, *p1, false), self.pt(2, *p2, false)];
+                    push(&mut self.out, &v);
+                    // SDPVTL[perpendicular]: FreeType drops the rotation of the projection vector as well when the
+                    // *original* positions coincide; only used where the original positions are known to differ
+                    let mut perp = *perp;
+                    if kind % 3 == 2 && perp {
+                        let far = match (self.st.zp[1], self.st.zp[2], self.coords.get(v[0] as usize), self.coords.get(v[1] as usize)) {
+                            (1, 1, Some(a), Some(b)) => (a.0 - b.0).abs() >= 64 || (a.1 - b.1).abs() >= 64,
+                            _ => false,
+                        };
+                        perp = far;
+                    }
+                    let perp = &perp;
+                    let (opc, name): (u8, &'static str) = match kind % 3 {
+                        0 => (0x06, "SPVTL"),
+                        1 => (0x08, "SFVTL"),
+                        _ => (0x86, "SDPVTL"),
+                    };
+                    self.out.push(opc + *perp as u8);
+                    self.hit(name);
+                }
+            }
+            GOp::Sfvtpv => {
+                self.out.push(0x0E);
+                self.hit0("SFVTPV");
+            }
+            GOp::VecFs { fv, x, y } => {
+                push(&mut self.out, &[*x as i32, *y as i32]);
+                self.out.push(0x0A + *fv as u8);
+                self.hit0(if *fv { "SFVFS" } else { "SPVFS" });
+            }
+            GOp::Vtca { fv, x } => {
+                self.out.push(if *fv { 0x04 } else { 0x02 } + *x as u8);
+                self.hit0(if *fv { "SFVTCA" } else { "SPVTCA" });
+            }
+            GOp::Loop { kind, pts, amt } => {
+                if pts.is_empty() {
+                    return;
+                }
+                let pts = &pts[..pts.len().min(6)];
+                let kind = kind % 6;
+                let ok = match kind {
+                    0 => self.need_zone(0) && self.need_zone(1) && self.need_zone(2),
+                    1 => self.need_zone(0) && self.need_zone(1),
+                    2 => self.need_zone(1) && self.need_zone(2),
+                    3 => self.need_zone(0) && self.need_zone(2),
+                    4 => self.need_zone(2),
+                    _ => self.n[1] > 0,
+                };
+                if !ok {
+                    return;
+                }
+                match kind {
+                    0 => {
+                        self.need_rp(1, 0, pts[0]);
+                        self.need_rp(2, 1, pts[0]);
+                    }
+                    1 => self.need_rp(0, 0, pts[0]),
+                    2 => self.need_rp(2, 1, pts[0]),
+                    3 => self.need_rp(1, 0, pts[0]),
+                    _ => {}
+                }
+                let mut v: Vec<i32> = pts
+                    .iter()
+                    .map(|p| match kind {
+                        0 | 2 | 3 | 4 => self.pt(2, *p, true),
+                        1 => self.pt(1, *p, true),
+                        _ => (*p as usize % self.n[1]) as i32,
+                    })
+                    .collect();
+                if kind == 4 {
+                    v.push(*amt as i32);
+                }
+                v.push(pts.len() as i32);
+                push(&mut self.out, &v);
+                self.out.push(0x17); // SLOOP
+                let (opc, name): (u8, &'static str) = match kind {
+                    0 => (0x39, "SLOOP+IP"),
+                    1 => (0x3C, "SLOOP+ALIGNRP"),
+                    2 => (0x32, "SLOOP+SHP[rp2]"),
+                    3 => (0x33, "SLOOP+SHP[rp1]"),
+                    4 => (0x38, "SLOOP+SHPIX"),
+                    _ => (0x80, "SLOOP+FLIPPT"),
+                };
+                self.out.push(opc);
+                self.hit(name);
+            }
+            GOp::FlipRg { on, lo, hi } => {
+                if self.n[1] > 0 {
+                    let a = *lo as usize % self.n[1];
+                    let b = *hi as usize % self.n[1];
+                    push(&mut self.out, &[a.min(b) as i32, a.max(b) as i32]);
+                    self.out.push(if *on { 0x81 } else { 0x82 });
+                    self.hit0(if *on { "FLIPRGON" } else { "FLIPRGOFF" });
+                }
+            }
+            GOp::ShpixE { p, e } => {
+                if self.need_zone(2) {
+                    let q = self.pt(2, *p, true);
+                    push(&mut self.out, &[q]);
+                    self.expr(e, Some(640));
+                    self.out.push(0x38);
+                    self.hit("SHPIX(expr)");
+                }
+            }
+            GOp::MsirpE { a, p, e } => {
+                if self.need_zone(0) && self.need_zone(1) {
+                    self.need_rp(0, 0, *p);
+                    let q = self.pt(1, *p, true);
+                    push(&mut self.out, &[q]);
+                    self.expr(e, Some(2000));
+                    self.out.push(0x3A + *a as u8);
+                    self.hit("MSIRP(expr)");
+                    self.st.rp[1] = self.st.rp[0];
+                    self.st.rp[2] = q as usize;
+                    if *a {
+                        self.st.rp[0] = q as usize;
+                    }
+                }
+            }
+            GOp::WcvtpE { c, e } => {
+                if self.ncvt > 0 {
+                    let cvi = self.cv(*c);
+                    push(&mut self.out, &[cvi]);
+                    self.expr(e, Some(4000));
+                    self.out.push(0x44);
+                    self.st.cvt_copied = true;
+                    self.hit0("WCVTP(expr)");
+                }
+            }
+            GOp::Scfs { p, e } => {
+                if self.need_zone(2) {
+                    let q = self.pt(2, *p, true);
+                    push(&mut self.out, &[q]);
+                    self.expr(e, Some(16000));
+                    self.out.push(0x48);
+                    self.hit("SCFS");
+                }
+            }
+            GOp::Ws { s, e } => {
+                push(&mut self.out, &[(*s as usize % self.nstore) as i32]);
+                self.expr(e, Some(16384));
+                self.out.push(0x42);
+                self.hit0("WS");
+            }
+            GOp::Wcvtf { c, v } => {
+                if self.ncvt > 0 {
+                    let cvi = self.cv(*c);
+                    if !self.is_prep && !self.st.cvt_copied {
+                        push(&mut self.out, &[cvi, cvi]);
+                        self.out.extend_from_slice(&[0x45, 0x44]);
+                        self.st.cvt_copied = true;
+                    }
+                    push(&mut self.out, &[cvi, (*v as i32).clamp(-2000, 2000)]);
+                    self.out.push(0x70);
+                    self.hit0("WCVTF");
+                }
+            }
+            GOp::If { cond, then, els } => {
+                self.expr(cond, None);
+                self.out.push(0x58);
+                self.body(then);
+                if !els.is_empty() {
+                    self.out.push(0x1B);
+                    self.body(els);
+                    self.hit0("ELSE");
+                }
+                self.out.push(0x59);
+                self.hit0("IF");
+            }
+            GOp::Jmp { kind, cond, skip } => {
+                let start = self.out.len();
+                self.body(skip);
+                let code = self.out.split_off(start);
+                let off = 1 + code.len() as i32;
+                match kind % 3 {
+                    0 => {
+                        push(&mut self.out, &[off]);
+                        self.out.push(0x1C);
+                        self.hit0("JMPR");
+                    }
+                    k => {
+                        push(&mut self.out, &[off]);
+                        self.expr(cond, None);
+                        self.out.push(if k == 1 { 0x78 } else { 0x79 });
+                        self.hit0(if k == 1 { "JROT" } else { "JROF" });
+                    }
+                }
+                self.out.extend_from_slice(&code);
+            }
+            GOp::Call { f, looped, args } => {
+                if self.fdefs.is_empty() || args.is_empty() {
+                    return;
+                }
+                let fi = *f as usize % self.fdefs.len();
+                let fdefs = self.fdefs;
+                let chained = matches!(fdefs[fi], FDef::Chain(_));
+                let count = if *looped { args.len().min(4) } else { 1 };
+                match resolve(fdefs, fi) {
+                    Some(FDef::Tpl(t)) if is_template_op(t) => {
+                        let mut sets: Vec<Vec<i32>> = vec![];
+                        for (i, a) in args.iter().take(count).enumerate() {
+                            let concrete = instantiate(t, a);
+                            match self.simple(&concrete, i == 0) {
+                                Some((mut v, _)) => {
+                                    if matches!(t, GOp::Deltap { .. }) {
+                                        v.pop();
+                                    }
+                                    sets.push(v);
+                                }
+                                None => break,
+                            }
+                        }
+                        if sets.is_empty() {
+                            return;
+                        }
+                        let mut v: Vec<i32> = sets.iter().rev().flatten().copied().collect();
+                        if *looped {
+                            v.push(sets.len() as i32);
+                        }
+                        v.push(fi as i32);
+                        push(&mut self.out, &v);
+                        self.out.push(if *looped { 0x2A } else { 0x2B });
+                        self.hit(if *looped { "LOOPCALL(point-op)" } else { "CALL(point-op)" });
+                    }
+                    Some(FDef::Arith(_)) => {
+                        let mut v = vec![(args[0].v as i32).clamp(-4000, 4000)];
+                        if *looped {
+                            v.push(count as i32);
+                        }
+                        v.push(fi as i32);
+                        push(&mut self.out, &v);
+                        self.out.push(if *looped { 0x2A } else { 0x2B });
+                        self.out.push(0x21);
+                        self.hit0(if *looped { "LOOPCALL(arith)" } else { "CALL(arith)" });
+                    }
+                    Some(FDef::State(_)) | Some(FDef::Tpl(_)) => {
+                        let mut v = vec![];
+                        if *looped {
+                            v.push(count as i32);
+                        }
+                        v.push(fi as i32);
+                        push(&mut self.out, &v);
+                        self.out.push(if *looped { 0x2A } else { 0x2B });
+                        self.hit0(if *looped { "LOOPCALL(state)" } else { "CALL(state)" });
+                    }
+                    _ => return,
+                }
+                if chained {
+                    self.hit0("CALL(chained)");
+                }
+            }
+            GOp::ScanCtrl(v) => {
+                push(&mut self.out, &[(*v & 0x3FFF) as i32]);
+                self.out.push(0x85);
+                self.hit0("SCANCTRL");
+            }
+            GOp::ScanType(v) => {
+                push(&mut self.out, &[(*v & 0x3FFF) as i32]);
+                self.out.push(0x8D);
+                self.hit0("SCANTYPE");
+            }
+            GOp::InstCtrl { sel, on } => {
+                let sel = 1 + (*sel % 3) as i32;
+                if !self.is_prep && sel != 3 {
+                    return;
+                }
+                let value = if *on { 1 << (sel - 1) } else { 0 };
+                push(&mut self.out, &[value, sel]);
+                self.out.push(0x8E);
+                self.hit0(match (self.is_prep, sel) {
+                    (true, 1) => "INSTCTRL(prep,1)",
+                    (true, 2) => "INSTCTRL(prep,2)",
+                    (true, _) => "INSTCTRL(prep,3)",
+                    _ => "INSTCTRL(glyph,3)",
+                });
+            }
+            GOp::Sdb(v) => {
+                push(&mut self.out, &[*v as i32]);
+                self.out.push(0x5E);
+                self.hit0("SDB");
+            }
+            GOp::Sds(v) => {
+                push(&mut self.out, &[(*v % 7) as i32]);
+                self.out.push(0x5F);
+                self.hit0("SDS");
+            }
+            GOp::DeltaPn { which, items } => {
+                if items.is_empty() || !self.need_zone(0) {
+                    return;
+                }
+                let items = &items[..items.len().min(4)];
+                let mut v = vec![];
+                for (arg, p) in items.iter().rev() {
+                    v.push(*arg as i32);
+                    v.push(self.pt(0, *p, true));
+                }
+                v.push(items.len() as i32);
+                push(&mut self.out, &v);
+                self.out.push([0x5D, 0x71, 0x72][(*which % 3) as usize]);
+                self.hit(["DELTAP1", "DELTAP2", "DELTAP3"][(*which % 3) as usize]);
+            }
+            GOp::DeltaCn { which, items } => {
+                if items.is_empty() || self.ncvt == 0 {
+                    return;
+                }
+                let items = &items[..items.len().min(4)];
+                let mut v = vec![];
+                for (arg, c) in items.iter().rev() {
+                    v.push(*arg as i32);
+                    v.push(self.cv(*c));
+                }
+                v.push(items.len() as i32);
+                push(&mut self.out, &v);
+                self.out.push([0x73, 0x74, 0x75][(*which % 3) as usize]);
+                // (no per-glyph CVT copy is guaranteed: FreeType copies only when an exception applies at this size)
+                self.hit0(["DELTAC1", "DELTAC2", "DELTAC3"][(*which % 3) as usize]);
+            }
+            GOp::Sangw(v) => {
+                push(&mut self.out, &[(*v & 0x3FFF) as i32]);
+                self.out.push(0x7E);
+                self.hit0("SANGW");
+            }
+            GOp::Aa(v) => {
+                push(&mut self.out, &[*v as i32]);
+                self.out.push(0x7F);
+                self.hit0("AA");
+            }
+            GOp::StackJunk { kind, vals } => {
+                if kind % 2 == 0 {
+                    let g = |i: usize| vals.get(i).copied().unwrap_or(i as i16) as i32;
+                    push(&mut self.out, &[g(0), g(1), g(2)]);
+                    self.out.extend_from_slice(&[0x8A, 0x23, 0x20]);
+                    push(&mut self.out, &[2]);
+                    self.out.push(0x25);
+                    push(&mut self.out, &[3]);
+                    self.out.push(0x26);
+                    self.out.extend_from_slice(&[0x21; 5]);
+                    self.hit0("stack-shuffle");
+                } else {
+                    let v: Vec<i32> = vals.iter().take(12).map(|v| *v as i32).collect();
+                    push(&mut self.out, &v);
+                    self.out.extend_from_slice(&[0x24, 0x22]);
+                    self.hit0("CLEAR");
+                }
+            }
+            _ => {}
         }
     }
 }
@@ -201,22 +1495,132 @@ pub struct Built {
     pub bytes: Vec<u8>,
     pub num_glyphs: u16,
     pub has_point_anchor_nested: bool,
+    /// a composite with point-matched children used as a non-first component of another composite
+    pub anchored_nested_nonfirst: bool,
+    pub max_depth: u8,
+    pub comp_instructions: bool,
     /// per glyph: 0 plain, 1 reaches a component with SCALED_COMPONENT_OFFSET + a transform, 2 reaches a component with both
     /// offset flags + a transform (listed discrepancies with FreeType 2.12.1)
     pub feature: Vec<u8>,
+    /// per glyph: bit set of listed interpreter discrepancies its own program (or a component's) can reach
+    pub known: Vec<u32>,
+    /// bit set of listed discrepancies of the font program / control value program (affect every hinted glyph)
+    pub known_font: u32,
+    /// instruction kinds emitted, with the zone pointers in effect (bit i = zp_i is the glyph zone; 0xFF: no zone operand)
+    pub classes: Classes,
 }
 
-/// number of points of each glyph (composites: sum over components), needed for valid point anchors
+fn merge(into: &mut Classes, from: &Classes) {
+    for (k, v) in from {
+        *into.entry(*k).or_insert(0) += *v;
+    }
+}
+
+/// listed interpreter discrepancies (known_findings.json, sigs `c03|synthetic|interpreter|*|<name>`)
+/// a component's glyph program executed INSTCTRL selector 3: FreeType keeps the changed backward-compatibility flag for
+/// the rest of the composite, skrifa resets it for every program
+pub const KN_COMPONENT_INSTCTRL3: u32 = 2;
+
+fn expr_any(e: &Expr, f: &dyn Fn(&Expr) -> bool) -> bool {
+    if f(e) {
+        return true;
+    }
+    match e {
+        Expr::Un(_, a) | Expr::DivC(a, _) | Expr::Call(_, a) => expr_any(a, f),
+        Expr::Bin(_, a, b) => expr_any(a, f) || expr_any(b, f),
+        Expr::Shuf(_, a, b, c) => expr_any(a, f) || expr_any(b, f) || expr_any(c, f),
+        _ => false,
+    }
+}
+
+/// does any op (recursively) satisfy `fo`, or any expression `fe`
+pub fn ops_any(ops: &[GOp], fo: &dyn Fn(&GOp) -> bool, fe: &dyn Fn(&Expr) -> bool) -> bool {
+    ops.iter().any(|o| {
+        fo(o)
+            || match o {
+                GOp::If { cond, then, els } => expr_any(cond, fe) || ops_any(then, fo, fe) || ops_any(els, fo, fe),
+                GOp::Jmp { cond, skip, .. } => expr_any(cond, fe) || ops_any(skip, fo, fe),
+                GOp::IfPpemLt { body, .. } => ops_any(body, fo, fe),
+                GOp::ShpixE { e, .. } | GOp::MsirpE { e, .. } | GOp::WcvtpE { e, .. } | GOp::Scfs { e, .. } | GOp::Ws { e, .. } => expr_any(e, fe),
+                _ => false,
+            }
+    })
+}
+
+/// SHZ in the program of a composite that is loaded at a non-zero point offset (non-first component): FreeType 2.12.1
+/// takes the zone's last contour end without subtracting the zone's first point and shifts the phantom points (and
+/// memory beyond them) too
+pub const KN_NESTED_SHZ: u32 = 16;
+
+fn has_shz(ops: &[GOp]) -> bool {
+    ops_any(ops, &|o| matches!(o, GOp::Shz { .. }), &|_| false)
+}
+
+/// listed discrepancies a program can reach by itself (none at present: the classes found so far that a single program
+/// reaches have been repaired in the library; the remaining ones depend on the control value program or on nesting)
+pub fn known_bits(_ops: &[GOp], _fdefs: &[FDef]) -> u32 {
+    0
+}
+fn has_glyph_instctrl3(ops: &[GOp]) -> bool {
+    ops_any(ops, &|o| matches!(o, GOp::InstCtrl { sel, .. } if sel % 3 == 2), &|_| false)
+}
+/// the bits that matter for hinting mode `mode` (1..=5)
+/// the control value program requests the default graphics state (INSTCTRL selector 2) after changing a retained
+/// graphics-state variable: FreeType 2.12.1 runs glyph programs with the control value program's state nevertheless
+pub const KN_INSTCTRL2_DEFAULT_GS: u32 = 4;
+
+fn prep_known_bits(prep: &[GOp], fdefs: &[FDef]) -> u32 {
+    let mut b = known_bits(prep, fdefs);
+    let sel2 = ops_any(prep, &|o| matches!(o, GOp::InstCtrl { sel, on: true } if sel % 3 == 1), &|_| false);
+    let sets_state = ops_any(prep, &|o| matches!(o, GOp::Round(..) | GOp::Smd(_) | GOp::Scvtci(_) | GOp::Ssw(_) | GOp::Sswci(_) | GOp::Flip(_) | GOp::Sdb(_) | GOp::Sds(_) | GOp::Call { .. }), &|_| false);
+    if sel2 && sets_state {
+        b |= KN_INSTCTRL2_DEFAULT_GS;
+    }
+    b
+}
+
+pub fn known_for_mode(bits: u32, mode: u8) -> u32 {
+    if mode == 0 {
+        0
+    } else {
+        bits
+    }
+}
+pub fn known_sig(bits: u32) -> &'static str {
+    if bits & KN_NESTED_SHZ != 0 {
+        "shz-in-nested-composite-program"
+    } else if bits & KN_INSTCTRL2_DEFAULT_GS != 0 {
+        "instctrl2-default-graphics-state"
+    } else if bits & KN_COMPONENT_INSTCTRL3 != 0 {
+        "component-instctrl3-backward-compatibility"
+    } else {
+        "plain"
+    }
+}
+
 pub fn build(f: &SynthFont) -> Built {
-    let ncvt = f.cvt.len();
+    let second_gen = f.twilight > 0;
+    let cvt_vals: Vec<i16> = if second_gen && f.cvt.is_empty() { vec![96] } else { f.cvt.clone() };
+    let ncvt = cvt_vals.len();
+    let tw = if second_gen { f.twilight.min(32) as usize + 4 } else { 0 };
+    let own_from = if second_gen { f.tw_prep_owned as usize % (f.twilight.min(32) as usize + 1) } else { 0 };
+    let mut classes = Classes::new();
+    let known_font = prep_known_bits(&f.prep, &f.fdefs);
+    let mut shz_any: Vec<bool> = vec![false];
+    let mut instctrl3: Vec<bool> = vec![false];
     let mut glyf: Vec<u8> = vec![];
     let mut offsets: Vec<u32> = vec![0, 0]; // glyph 0 = empty .notdef
     let mut hm: Vec<(u16, i16)> = vec![(f.upem / 2, 0)];
     let mut npts: Vec<usize> = vec![0];
+    let mut ncont: Vec<usize> = vec![0];
+    let mut depth: Vec<u8> = vec![0];
     let mut is_composite: Vec<bool> = vec![false];
     let mut uses_anchor: Vec<bool> = vec![false];
     let mut nested_anchor = false;
+    let mut anchored_nested_nonfirst = false;
+    let mut comp_instructions = false;
     let mut feature: Vec<u8> = vec![0];
+    let mut known: Vec<u32> = vec![0];
     for g in &f.simple {
         let contours: Vec<&Vec<(i16, i16, bool)>> = g.contours.iter().filter(|c| !c.is_empty()).collect();
         let n: usize = contours.iter().map(|c| c.len()).sum();
@@ -224,9 +1628,14 @@ pub fn build(f: &SynthFont) -> Built {
             offsets.push(glyf.len() as u32);
             hm.push((g.advance, 0));
             npts.push(0);
+            ncont.push(0);
+            depth.push(0);
             is_composite.push(false);
             uses_anchor.push(false);
             feature.push(0);
+            known.push(0);
+            instctrl3.push(false);
+            shz_any.push(false);
             continue;
         }
         let xs = contours.iter().flat_map(|c| c.iter().map(|p| p.0 as i32));
@@ -242,10 +1651,13 @@ pub fn build(f: &SynthFont) -> Built {
             end += c.len();
             be16(&mut glyf, end as i32 - 1);
         }
-        let mut prog = vec![];
         // points addressable by the generated program: the glyph's own points + the two horizontal phantom points
         // (the vertical phantom points are computed differently by FreeType and skrifa without vmtx: see DESIGN.md C03)
-        encode_program(&g.program, n + 2, ncvt, &mut prog);
+        let mut e = Enc::new(&f.fdefs, [tw, n + 2], own_from, contours.len(), ncvt, false);
+        e.coords = contours.iter().flat_map(|c| c.iter().map(|p| (p.0 as i32, p.1 as i32))).collect();
+        e.program(&g.program);
+        merge(&mut classes, &e.classes);
+        let prog = e.out;
         be16(&mut glyf, prog.len() as i32);
         glyf.extend_from_slice(&prog);
         for c in &contours {
@@ -273,23 +1685,47 @@ pub fn build(f: &SynthFont) -> Built {
         offsets.push(glyf.len() as u32);
         hm.push((g.advance, xmin as i16));
         npts.push(n);
+        ncont.push(contours.len());
+        depth.push(0);
         is_composite.push(false);
         uses_anchor.push(false);
         feature.push(0);
+        known.push(known_bits(&g.program, &f.fdefs));
+        instctrl3.push(has_glyph_instctrl3(&g.program));
+        shz_any.push(false);
     }
-    for comps in &f.composites {
+    let nsimple = npts.len();
+    for (comp_ix, comps) in f.composites.iter().enumerate() {
         let avail = npts.len();
         let mut total = 0usize;
+        let mut total_contours = 0usize;
         let mut body = vec![];
         let mut any_anchor = false;
         let mut feat = 0u8;
+        let mut kn = 0u32;
+        let mut ic3 = false;
+        let mut shz = false;
+        let mut dep = 0u8;
         let comps: Vec<&Component> = comps.iter().take(6).collect();
-        let mut written = 0;
-        for (ci, c) in comps.iter().enumerate() {
-            let t = 1 + (c.target as usize % (avail - 1).max(1));
-            if t >= avail || npts[t] == 0 {
-                continue;
+        let cprog = f.comp_programs.get(comp_ix).filter(|p| !p.ops.is_empty());
+        // resolve the components first: target glyph with points, nesting depth <= 4, bounded size
+        let mut resolved: Vec<(usize, &Component)> = vec![];
+        {
+            let mut tot = 0usize;
+            for c in &comps {
+                let mut t = 1 + (c.target as usize % (avail - 1).max(1));
+                if t < avail && depth[t] >= 4 {
+                    t = 1 + (c.target as usize % (nsimple - 1).max(1));
+                }
+                if t >= avail || npts[t] == 0 || tot + npts[t] > 400 {
+                    continue;
+                }
+                tot += npts[t];
+                resolved.push((t, c));
             }
+        }
+        for (ci, (t, c)) in resolved.iter().enumerate() {
+            let t = *t;
             let by_points = c.by_points && total > 0;
             let mut flags: u16 = 0x0001; // ARG_1_AND_2_ARE_WORDS
             if !by_points {
@@ -313,12 +1749,14 @@ pub fn build(f: &SynthFont) -> Built {
             if c.offset_mode & 2 != 0 {
                 flags |= 0x1000;
             }
-            let more = comps.iter().skip(ci + 1).any(|c2| {
-                let t2 = 1 + (c2.target as usize % (avail - 1).max(1));
-                t2 < avail && npts[t2] > 0
-            });
+            let more = ci + 1 < resolved.len();
             if more {
                 flags |= 0x0020;
+            }
+            if let Some(p) = cprog {
+                if !more || p.flag_on_all {
+                    flags |= 0x0100; // WE_HAVE_INSTRUCTIONS
+                }
             }
             be16(&mut body, flags as i32);
             be16(&mut body, t as i32);
@@ -354,19 +1792,39 @@ pub fn build(f: &SynthFont) -> Built {
                 feat = feat.max(if c.offset_mode == 3 { 2 } else { 1 });
             }
             feat = feat.max(feature[t]);
-            total += npts[t];
-            written += 1;
+            kn |= known[t];
+            if shz_any[t] {
+                shz = true;
+                if total > 0 {
+                    kn |= KN_NESTED_SHZ;
+                }
+            }
+            if instctrl3[t] {
+                kn |= KN_COMPONENT_INSTCTRL3;
+                ic3 = true;
+            }
+            dep = dep.max(depth[t] + 1);
+            if uses_anchor[t] && total > 0 {
+                anchored_nested_nonfirst = true;
+            }
             if uses_anchor[t] && by_points {
                 nested_anchor = true;
             }
+            total += npts[t];
+            total_contours += ncont[t];
         }
-        if written == 0 {
+        if resolved.is_empty() {
             offsets.push(glyf.len() as u32);
             hm.push((f.upem / 2, 0));
             npts.push(0);
+            ncont.push(0);
+            depth.push(0);
             is_composite.push(true);
             uses_anchor.push(false);
             feature.push(0);
+            known.push(0);
+            instctrl3.push(false);
+            shz_any.push(false);
             continue;
         }
         be16(&mut glyf, -1);
@@ -374,30 +1832,70 @@ pub fn build(f: &SynthFont) -> Built {
             be16(&mut glyf, v);
         }
         glyf.extend_from_slice(&body);
+        if let Some(p) = cprog {
+            let mut e = Enc::new(&f.fdefs, [tw, total + 2], own_from, total_contours, ncvt, false);
+            e.program(&p.ops);
+            merge(&mut classes, &e.classes);
+            be16(&mut glyf, e.out.len() as i32);
+            glyf.extend_from_slice(&e.out);
+            kn |= known_bits(&p.ops, &f.fdefs);
+            shz |= has_shz(&p.ops);
+            ic3 |= has_glyph_instctrl3(&p.ops);
+            comp_instructions = true;
+        }
         if glyf.len() % 2 == 1 {
             glyf.push(0);
         }
         offsets.push(glyf.len() as u32);
         hm.push((f.upem / 2, 0));
         npts.push(total);
+        ncont.push(total_contours);
+        depth.push(dep);
         is_composite.push(true);
         uses_anchor.push(any_anchor);
         feature.push(feat);
+        known.push(kn);
+        instctrl3.push(ic3);
+        shz_any.push(shz);
     }
     let num_glyphs = (offsets.len() - 1) as u16;
     let mut cvt = vec![];
-    for c in &f.cvt {
+    for c in &cvt_vals {
         cvt.extend_from_slice(&c.to_be_bytes());
     }
-    let mut prep = vec![];
-    encode_program(&f.prep, 0, ncvt, &mut prep);
-    let mut extra = vec![(*b"prep", prep)];
+    let mut pe = Enc::new(&f.fdefs, [tw, 0], 0, 0, ncvt, true);
+    pe.program(&f.prep);
+    merge(&mut classes, &pe.classes);
+    let mut extra = vec![(*b"prep", pe.out)];
     if !cvt.is_empty() {
         extra.push((*b"cvt ", cvt));
     }
+    if !f.fdefs.is_empty() {
+        extra.push((*b"fpgm", encode_fpgm(&f.fdefs, ncvt)));
+    }
+    if second_gen {
+        let mut maxp = vec![];
+        maxp.extend_from_slice(&0x00010000u32.to_be_bytes());
+        maxp.extend_from_slice(&num_glyphs.to_be_bytes());
+        for x in [2000u16, 200, 2000, 200, 2, f.twilight.min(32) as u16, 64, 64, 64, 1024, 4096, 64, 8] {
+            maxp.extend_from_slice(&x.to_be_bytes());
+        }
+        extra.push((*b"maxp", maxp));
+    }
     // minimal cmap (format 4, empty) so that FreeType accepts the face everywhere
     let kit = fontkit::Kit { num_glyphs, upem: f.upem, glyf: Some((glyf, offsets)), h_metrics: hm, extra, ..Default::default() };
-    Built { bytes: kit.build(), num_glyphs, has_point_anchor_nested: nested_anchor, feature }
+    Built {
+        bytes: kit.build(),
+        num_glyphs,
+        has_point_anchor_nested: nested_anchor,
+        anchored_nested_nonfirst,
+        max_depth: depth.iter().copied().max().unwrap_or(0),
+        comp_instructions,
+        feature,
+        known,
+        known_font,
+        classes,
+    }
 }
 
 // ---------------------------------------------------------------------------------------------
@@ -406,7 +1904,7 @@ fn coord() -> impl Strategy<Value = i16> {
     prop_oneof![3 => (-200i16..1200), 1 => proptest::sample::select(vec![0i16, 1, -1, 500, 1000, 64, 128, 333])]
 }
 
-fn gop_simple() -> impl Strategy<Value = GOp> {
+fn gop_simple() -> BoxedStrategy<GOp> {
     prop_oneof![
         2 => any::<bool>().prop_map(GOp::Svtca),
         3 => (0u8..8, prop_oneof![Just(0u8), Just(0x40), Just(0x80), Just(0x48), Just(0x71), any::<u8>()]).prop_map(|(k, a)| GOp::Round(k, a)),
@@ -429,17 +1927,146 @@ fn gop_simple() -> impl Strategy<Value = GOp> {
         1 => any::<bool>().prop_map(GOp::Flip),
         1 => (any::<u8>(), any::<u8>(), any::<u8>(), any::<u8>(), any::<u8>()).prop_map(|(p, a0, a1, b0, b1)| GOp::Isect { p, a0, a1, b0, b1 }),
     ]
+    .boxed()
 }
 
-fn gop() -> impl Strategy<Value = GOp> {
+fn template_op() -> BoxedStrategy<GOp> {
     prop_oneof![
-        12 => gop_simple(),
-        1 => (8u8..60, proptest::collection::vec(gop_simple(), 1..4)).prop_map(|(k, body)| GOp::IfPpemLt { k, body }),
+        (any::<bool>()).prop_map(|r| GOp::Mdap { r, p: 0 }),
+        (any::<bool>()).prop_map(|r| GOp::Miap { r, p: 0, c: 0 }),
+        (0u8..32).prop_map(|fl| GOp::Mdrp { fl, p: 0 }),
+        (0u8..32).prop_map(|fl| GOp::Mirp { fl, p: 0, c: 0 }),
+        (any::<bool>()).prop_map(|a| GOp::Msirp { a, p: 0, d: 0 }),
+        Just(GOp::Ip { p: 0 }),
+        Just(GOp::AlignRp { p: 0 }),
+        (any::<bool>()).prop_map(|a| GOp::Shp { a, p: 0 }),
+        Just(GOp::Shpix { p: 0, amt: 0 }),
+        Just(GOp::Wcvtp { c: 0, v: 0 }),
+        Just(GOp::Utp { p: 0 }),
+        Just(GOp::AlignPts { p1: 0, p2: 0 }),
+        Just(GOp::Deltap { arg: 0, p: 0 }),
     ]
+    .boxed()
 }
 
-fn program() -> impl Strategy<Value = Vec<GOp>> {
-    (proptest::collection::vec(gop(), 0..14), any::<bool>()).prop_map(|(mut ops, iup)| {
+fn vec_comp() -> impl Strategy<Value = i16> {
+    prop_oneof![2 => proptest::sample::select(vec![0x4000i16, 0, -0x4000, 0x2D41, -0x2D41, 0x1000, 1]), 1 => any::<i16>()]
+}
+
+fn state_op() -> BoxedStrategy<GOp> {
+    prop_oneof![
+        2 => any::<bool>().prop_map(GOp::Svtca),
+        2 => (0u8..8, any::<u8>()).prop_map(|(k, a)| GOp::Round(k, a)),
+        1 => (0u8..=128).prop_map(GOp::Smd),
+        1 => (0u8..=128).prop_map(GOp::Scvtci),
+        1 => (0u8..=200).prop_map(GOp::Ssw),
+        1 => (0u8..=128).prop_map(GOp::Sswci),
+        1 => any::<bool>().prop_map(GOp::Flip),
+        1 => prop_oneof![Just(9u8), 0u8..60].prop_map(GOp::Sdb),
+        1 => (0u8..7).prop_map(GOp::Sds),
+        1 => any::<u16>().prop_map(GOp::ScanCtrl),
+        1 => any::<u16>().prop_map(GOp::ScanType),
+        2 => (any::<bool>(), any::<bool>()).prop_map(|(fv, x)| GOp::Vtca { fv, x }),
+        2 => (any::<bool>(), vec_comp(), vec_comp()).prop_map(|(fv, x, y)| GOp::VecFs { fv, x, y }),
+        1 => Just(GOp::Sfvtpv),
+        1 => any::<u16>().prop_map(GOp::Sangw),
+        1 => any::<u8>().prop_map(GOp::Aa),
+    ]
+    .boxed()
+}
+
+fn call_arg() -> impl Strategy<Value = CallArg> {
+    (any::<u8>(), any::<u8>(), -500i16..1500).prop_map(|(a, b, v)| CallArg { a, b, v })
+}
+
+fn gop_second() -> BoxedStrategy<GOp> {
+    prop_oneof![
+        8 => (0u8..4, proptest::bool::weighted(0.35)).prop_map(|(which, glyph)| GOp::Szp { which, glyph }),
+        3 => (any::<bool>(), any::<u8>()).prop_map(|(a, c)| GOp::Shc { a, c }),
+        2 => (any::<bool>(), any::<bool>()).prop_map(|(a, e)| GOp::Shz { a, e }),
+        2 => (any::<u8>(), any::<u8>()).prop_map(|(p1, p2)| GOp::AlignPts { p1, p2 }),
+        1 => any::<u8>().prop_map(|p| GOp::Utp { p }),
+        4 => (0u8..3, any::<bool>(), any::<u8>(), any::<u8>()).prop_map(|(kind, perp, p1, p2)| GOp::VecLine { kind, perp, p1, p2 }),
+        4 => (0u8..6, proptest::collection::vec(any::<u8>(), 1..5), -64i8..=64).prop_map(|(kind, pts, amt)| GOp::Loop { kind, pts, amt }),
+        2 => (any::<bool>(), any::<u8>(), any::<u8>()).prop_map(|(on, lo, hi)| GOp::FlipRg { on, lo, hi }),
+        1 => (any::<u8>(), -300i16..1500).prop_map(|(c, v)| GOp::Wcvtf { c, v }),
+        1 => (0u8..3, any::<bool>()).prop_map(|(sel, on)| GOp::InstCtrl { sel, on }),
+        3 => (0u8..3, proptest::collection::vec((any::<u8>(), any::<u8>()), 1..4)).prop_map(|(which, items)| GOp::DeltaPn { which, items }),
+        2 => (0u8..3, proptest::collection::vec((any::<u8>(), any::<u8>()), 1..4)).prop_map(|(which, items)| GOp::DeltaCn { which, items }),
+        1 => (0u8..2, proptest::collection::vec(-300i16..300, 1..5)).prop_map(|(kind, vals)| GOp::StackJunk { kind, vals }),
+        5 => (any::<u8>(), any::<bool>(), proptest::collection::vec(call_arg(), 1..4)).prop_map(|(f, looped, args)| GOp::Call { f, looped, args }),
+        8 => state_op(),
+    ]
+    .boxed()
+}
+
+fn expr_leaf() -> BoxedStrategy<Expr> {
+    prop_oneof![
+        3 => prop_oneof![-300i16..300, Just(64i16), Just(0i16), Just(-64i16)].prop_map(Expr::Const),
+        1 => Just(Expr::Mppem),
+        1 => Just(Expr::Mps),
+        4 => (any::<bool>(), any::<u8>()).prop_map(|(orig, p)| Expr::Gc { orig, p }),
+        4 => (any::<bool>(), any::<u8>(), any::<u8>()).prop_map(|(orig, p0, p1)| Expr::Md { orig, p0, p1 }),
+        1 => (0u8..8).prop_map(Expr::Rs),
+        1 => any::<u8>().prop_map(Expr::Rcvt),
+        1 => prop_oneof![Just(1u16), Just(0x20), Just(0x40), Just(0x100), Just(0x400), Just(0x800), Just(0x1000), Just(0x1FFF), 0u16..0x2000].prop_map(Expr::GetInfo),
+        1 => (any::<bool>(), any::<bool>()).prop_map(|(fv, y)| Expr::VecComp { fv, y }),
+        1 => Just(Expr::Depth),
+    ]
+    .boxed()
+}
+
+fn expr() -> BoxedStrategy<Expr> {
+    let leaf = expr_leaf();
+    let divisor = prop_oneof![Just(64i16), Just(128), Just(-64), Just(32), Just(1), -300i16..300];
+    let l1 = prop_oneof![
+        5 => leaf.clone(),
+        2 => (0u8..15, leaf.clone()).prop_map(|(k, a)| Expr::Un(k, Box::new(a))),
+        4 => (0u8..13, leaf.clone(), leaf.clone()).prop_map(|(k, a, b)| Expr::Bin(k, Box::new(a), Box::new(b))),
+        1 => (leaf.clone(), divisor).prop_map(|(a, c)| Expr::DivC(Box::new(a), c)),
+        1 => (0u8..5, leaf.clone(), leaf.clone(), leaf.clone()).prop_map(|(k, a, b, c)| Expr::Shuf(k, Box::new(a), Box::new(b), Box::new(c))),
+        1 => (any::<u8>(), leaf.clone()).prop_map(|(f, a)| Expr::Call(f, Box::new(a))),
+    ]
+    .boxed();
+    prop_oneof![
+        4 => l1.clone(),
+        1 => (0u8..13, l1.clone(), leaf).prop_map(|(k, a, b)| Expr::Bin(k, Box::new(a), Box::new(b))),
+        1 => (0u8..15, l1).prop_map(|(k, a)| Expr::Un(k, Box::new(a))),
+    ]
+    .boxed()
+}
+
+fn gop_expr() -> BoxedStrategy<GOp> {
+    prop_oneof![
+        3 => (any::<u8>(), expr()).prop_map(|(p, e)| GOp::ShpixE { p, e }),
+        2 => (any::<bool>(), any::<u8>(), expr()).prop_map(|(a, p, e)| GOp::MsirpE { a, p, e }),
+        2 => (any::<u8>(), expr()).prop_map(|(c, e)| GOp::WcvtpE { c, e }),
+        2 => (any::<u8>(), expr()).prop_map(|(p, e)| GOp::Scfs { p, e }),
+        1 => (0u8..8, expr()).prop_map(|(s, e)| GOp::Ws { s, e }),
+    ]
+    .boxed()
+}
+
+fn gop_flat() -> BoxedStrategy<GOp> {
+    prop_oneof![10 => gop_simple(), 9 => gop_second(), 4 => gop_expr()].boxed()
+}
+
+fn gop() -> BoxedStrategy<GOp> {
+    prop_oneof![
+        24 => gop_flat(),
+        1 => (8u8..60, proptest::collection::vec(gop_flat(), 1..4)).prop_map(|(k, body)| GOp::IfPpemLt { k, body }),
+        2 => (expr(), proptest::collection::vec(gop_flat(), 1..4), proptest::collection::vec(gop_flat(), 0..3)).prop_map(|(cond, then, els)| GOp::If { cond, then, els }),
+        1 => (0u8..3, expr(), proptest::collection::vec(gop_flat(), 1..4)).prop_map(|(kind, cond, skip)| GOp::Jmp { kind, cond, skip }),
+    ]
+    .boxed()
+}
+
+fn program(len: std::ops::Range<usize>) -> impl Strategy<Value = Vec<GOp>> {
+    (proptest::collection::vec(gop(), len), any::<bool>(), prop_oneof![3 => Just(vec![]), 2 => proptest::collection::vec((0u8..4).prop_map(|which| GOp::Szp { which, glyph: false }), 1..3)]).prop_map(|(mut ops, iup, lead)| {
+        // often start with some zone pointers on the twilight zone
+        if !ops.is_empty() {
+            ops.splice(0..0, lead);
+        }
         if iup {
             ops.push(GOp::Iup(true));
             ops.push(GOp::Iup(false));
@@ -449,13 +2076,38 @@ fn program() -> impl Strategy<Value = Vec<GOp>> {
 }
 
 fn simple_glyph() -> impl Strategy<Value = SimpleGlyph> {
-    (proptest::collection::vec(proptest::collection::vec((coord(), coord(), proptest::bool::weighted(0.7)), 3..9), 1..4), program(), 200u16..1400)
+    (proptest::collection::vec(proptest::collection::vec((coord(), coord(), proptest::bool::weighted(0.7)), 3..9), 1..4), program(0..14), 200u16..1400)
         .prop_map(|(contours, program, advance)| SimpleGlyph { contours, program, advance })
 }
 
 fn component() -> impl Strategy<Value = Component> {
-    (any::<u8>(), -400i16..900, -400i16..900, proptest::bool::weighted(0.3), any::<bool>(), prop_oneof![3 => Just(0u8), 1 => Just(1u8), 1 => Just(2u8), 1 => Just(3u8)], any::<[i16; 4]>(), proptest::bool::weighted(0.2), prop_oneof![4 => Just(0u8), 1 => Just(1u8), 1 => Just(2u8), 1 => Just(3u8)])
+    (any::<u8>(), -400i16..900, -400i16..900, proptest::bool::weighted(0.35), any::<bool>(), prop_oneof![3 => Just(0u8), 1 => Just(1u8), 1 => Just(2u8), 1 => Just(3u8)], any::<[i16; 4]>(), proptest::bool::weighted(0.15), prop_oneof![4 => Just(0u8), 1 => Just(1u8), 1 => Just(2u8), 1 => Just(3u8)])
         .prop_map(|(target, a, b, by_points, round_to_grid, scale_kind, scale, use_my_metrics, offset_mode)| Component { target, a, b, by_points, round_to_grid, scale_kind, scale, use_my_metrics, offset_mode })
+}
+
+fn fdef() -> BoxedStrategy<FDef> {
+    prop_oneof![
+        5 => template_op().prop_map(FDef::Tpl),
+        2 => proptest::collection::vec((0u8..15, -300i16..300), 1..4).prop_map(FDef::Arith),
+        2 => proptest::collection::vec(state_op(), 1..3).prop_map(FDef::State),
+        1 => any::<u8>().prop_map(FDef::Chain),
+    ]
+    .boxed()
+}
+
+fn prep_op() -> BoxedStrategy<GOp> {
+    prop_oneof![
+        3 => prop_oneof![
+            (0u8..=128).prop_map(GOp::Scvtci),
+            (0u8..=128).prop_map(GOp::Smd),
+            (any::<u8>(), -500i16..1500).prop_map(|(c, v)| GOp::Wcvtp { c, v }),
+            (0u8..8, any::<u8>()).prop_map(|(k, a)| GOp::Round(k, a)),
+        ],
+        3 => prop_oneof![1 => (Just(0u8), proptest::bool::weighted(0.3)), 2 => (Just(1u8), proptest::bool::weighted(0.5)), 4 => (Just(2u8), proptest::bool::weighted(0.7))].prop_map(|(sel, on)| GOp::InstCtrl { sel, on }),
+        8 => gop_flat(),
+        1 => (expr(), proptest::collection::vec(gop_flat(), 1..3), proptest::collection::vec(gop_flat(), 0..2)).prop_map(|(cond, then, els)| GOp::If { cond, then, els }),
+    ]
+    .boxed()
 }
 
 pub fn strategy() -> impl Strategy<Value = SynthFont> {
@@ -463,16 +2115,18 @@ pub fn strategy() -> impl Strategy<Value = SynthFont> {
         proptest::sample::select(vec![1000u16, 2048, 1024]),
         proptest::collection::vec(prop_oneof![0i16..1200, -300i16..0, Just(0i16)], 0..10),
         proptest::collection::vec(simple_glyph(), 1..5),
-        proptest::collection::vec(proptest::collection::vec(component(), 1..4), 0..4),
-        proptest::collection::vec(
-            prop_oneof![
-                (0u8..=128).prop_map(GOp::Scvtci),
-                (0u8..=128).prop_map(GOp::Smd),
-                (any::<u8>(), -500i16..1500).prop_map(|(c, v)| GOp::Wcvtp { c, v }),
-                (0u8..8, any::<u8>()).prop_map(|(k, a)| GOp::Round(k, a)),
-            ],
-            0..3,
-        ),
+        proptest::collection::vec((proptest::collection::vec(component(), 1..4), prop_oneof![3 => Just(vec![]).boxed(), 2 => program(1..6).boxed()], any::<bool>()), 0..6),
+        proptest::collection::vec(prep_op(), 0..6),
+        (4u8..=12, any::<u8>()),
+        proptest::collection::vec(fdef(), 0..6),
     )
-        .prop_map(|(upem, cvt, simple, composites, prep)| SynthFont { upem, cvt, simple, composites, prep })
+        .prop_map(|(upem, cvt, simple, comps, prep, (twilight, tw_prep_owned), fdefs)| {
+            let mut composites = vec![];
+            let mut comp_programs = vec![];
+            for (c, ops, flag_on_all) in comps {
+                composites.push(c);
+                comp_programs.push(CompProg { ops, flag_on_all });
+            }
+            SynthFont { upem, cvt, simple, composites, prep, twilight, tw_prep_owned, fdefs, comp_programs }
+        })
 }
